@@ -21,7 +21,9 @@ CLAIMS = {
          "C03_source_next / C03_source_terminal / C03_source_subscribe: for every operator, every state (take_last: every reachable state), "
          "every item and error value, the translated body computes exactly the machine's new state and output; "
          "C03_source_runs_like_the_machine / C03_source_meets_spec: subscribing through the translated actual_subscribe and driving the "
-         "translated observer with ANY call sequence yields run_op, hence the documented list function. A change to any of these bodies "
+         "translated observer with ANY call sequence yields run_op, hence the documented list function; C03_source_derived_compositions: the "
+         "default methods of ObservableExt that define first, first_or, last_or, element_at, ignore_elements, all, reduce_initial, max, min "
+         "build exactly the operator values of Derived.expand, in that order and with those counts. A change to any of these bodies "
          "breaks a tie theorem (reported with the failing input when the case run finds one, else no-failing-input-found). A harness process "
          "that dies (failed allocation, stack overflow) is narrowed down to the case that kills it, which becomes the failing input. "
          "average's float multiply is modelled, not verified.", "DESIGN.md section 5 C03 and 11.11"),
@@ -86,7 +88,9 @@ CLAIMS = {
          "driving the outer stream, hot inner observables and an unsubscription of merge_all_threads under every schedule with <= 2 context "
          "switches: no deadlock / panic / hang, grammar, every inner observable's items at most once and in order; with a sequential prologue "
          "(two running inner observables ending on two threads while synchronous ones wait for a slot): everything arrives and the output "
-         "completes.", "DESIGN.md section 5 C05"),
+         "completes. Tie by TRANSLATION (Props/C05src.v): the default methods merge_all(n), concat_all, flatten, flat_map, concat_map and "
+         "their _threads forms, parsed from /repo/src on every run (T5) and evaluated in Coq, build one MergeAllOp / MergeAllOpThreads - behind "
+         "a MapOp for the map forms - with the limit the machine is run with (n; 1; usize::MAX): C05_source_limits.", "DESIGN.md section 5 C05 and 11.11"),
  "C19": ("Theorems on the scheduler bookkeeping model (Remote::poll, the delay/timer stages of Scheduler::schedule, RepeatTask, "
          "TaskHandle) for one task followed through EVERY sequence of polls, clock advances, cancellations and queries: C19_once_at_most_once, "
          "C19_never_before_delay, C19_repeat_ticks (consecutive sequence numbers, first tick >= one period after scheduling, later ticks >= "
